@@ -556,7 +556,7 @@ type job struct {
 
 func jobsFor(tier string) []job {
 	var js []job
-	all := append(append(append(scen.Pairs(), scen.Triples()...), scen.QueryTriples()...), append(scen.Bulk(), scen.Tiny()...)...)
+	all := append(append(append(scen.Pairs(), scen.Triples()...), scen.QueryTriples()...), append(append(scen.Bulk(), scen.Tiny()...), scen.Twins()...)...)
 	for _, sc := range all {
 		if tier == "thorough" {
 			// thorough: bound 2 everywhere, within 8 minutes per scenario (a budget that is hit is
@@ -772,7 +772,7 @@ func parent(tier string) int {
 		s := all[len(all)/2]
 		r.Sample(map[string]any{"scenario": s.Scenario, "preemption_bound": s.Bound, "schedules": s.Executions, "max_points": s.MaxPoints, "distinct_outcomes": s.Outcomes})
 	}
-	r.Set("rule", "every schedule of every scenario up to the stated preemption bound (iterative context bounding; switches at a thread's end are free), plus for the scenarios with the shortest executions ALL schedules (no preemption bound) with state pruning on per-thread step counts while no context switch observes changed shared state, executed on the real code instrumented with a scheduling point before every statement of every library package; scenarios: every unordered pair of the operation catalogue (mc/internal/scen: 20 operations in the pair catalogue, 7 bulk operations) incl. a||a, with a shared decoded receiver and with distinct receivers, plus 3-thread scenarios (six mixed ones and every multiset of three short queries on one shared object); oracle per execution: every operation's result equals the sequential result, shared objects' observables unchanged, the same operations repeated sequentially after the concurrent phase still give the sequential results, no panic, no deadlock; determinism obligations: the empty schedule twice gives identical traces, every replayed prefix offers the recorded choices")
+	r.Set("rule", "every schedule of every scenario up to the stated preemption bound (iterative context bounding; switches at a thread's end are free), plus for the scenarios with the shortest executions ALL schedules (no preemption bound) with state pruning on per-thread step counts while no context switch observes changed shared state, executed on the real code instrumented with a scheduling point before every statement of every library package; scenarios: every unordered pair of the operation catalogue (mc/internal/scen: 20 operations in the pair catalogue, 7 bulk operations) incl. a||a, with a shared decoded receiver and with distinct receivers, a||a and decode||query pairs on distinct objects with IDENTICAL inputs in every thread (twin mode: one cache key hit from all threads), plus 3-thread scenarios (six mixed ones and every multiset of three short queries on one shared object); oracle per execution: every operation's result equals the sequential result, shared objects' observables unchanged, the same operations repeated sequentially after the concurrent phase still give the sequential results, no panic, no deadlock; determinism obligations: the empty schedule twice gives identical traces, every replayed prefix offers the recorded choices")
 	r.Assume("statement-level atomicity and sequentially consistent memory; code outside the library's own packages (fmt, text/template, x/text, errs) runs atomically between two scheduling points; data races inside one statement are left to the separate free-running -race pass")
 	r.Assume("every package-level variable of every library package is reset to its value at process start before each execution (so lazily built tables and caches are cold in every execution); state inside other packages is not reset")
 	r.Assume("at most 3 goroutines; goroutines started by the library itself would not be controlled (the library starts none)")
@@ -803,7 +803,7 @@ func replay(path string) int {
 	c := doc.Violation.Case
 	name, _ := c["scenario"].(string)
 	var sc *scen.Scenario
-	for _, s := range append(append(append(scen.Pairs(), scen.Triples()...), scen.QueryTriples()...), append(scen.Bulk(), scen.Tiny()...)...) {
+	for _, s := range append(append(append(scen.Pairs(), scen.Triples()...), scen.QueryTriples()...), append(append(scen.Bulk(), scen.Tiny()...), scen.Twins()...)...) {
 		if s.Name == name {
 			s := s
 			sc = &s
